@@ -48,7 +48,7 @@ CHECKS = {
    text="Exploration: when a node's store applies the write of its own batch, and when it proposes its digest, the peers whose acknowledgement frames (paired per connection with the batch frame) had been written by then, plus the node, must hold a quorum of stake (computed independently).",
    note="'Sent by the peer' is earlier than 'received by the node' (permissive direction). One known finding (own batch re-entering via a peer) is reported as KNOWN-FINDING."),
  "C13": dict(ref="5/C13", tech="deterministic simulation + seeded load/missed-broadcast search; end-to-end monitor at a bounded deadline",
-   text="Exploration with bounded liveness: without crashes or view-change faults, every transaction submitted before the load ends must be in a batch referenced by a block committed by every node, with the batch bytes stored by each, by load end + 1 s + 3 x (sync_retry_delay + 8 s); nodes whose mempool links are cut miss broadcasts and must fetch the batches; 25% add a one-way cut for the rest of the run (all peers but one or two cannot reach one node's mempool port, sync_retry_nodes 1..n-2); 30% of the scenarios add a burst of 40-100 n single-transaction batches within 1-60 ms (blocks with far more than 32 digests).",
+   text="Exploration with bounded liveness: without crashes or view-change faults, every transaction submitted before the load ends must be in a batch referenced by a block committed by every node, with the batch bytes stored by each, by load end + 1 s + 3 x (sync_retry_delay + 8 s); nodes whose mempool links are cut miss broadcasts and must fetch the batches; 25% add a one-way cut for the rest of the run (all peers but one or two cannot reach one node's mempool port; two retry targets, no garbage collection, deadline + 30 s); 30% of the scenarios add a burst of 40-100 n single-transaction batches within 1-60 ms (blocks with far more than 32 digests).",
    note="Required probes ensure batch requests and helper replies actually occurred."),
  "C19": dict(ref="5/C19", tech="deterministic simulation + seeded fault/schedule search; independent certificate checker on every emitted QC/TC",
    text="Exploration: every QC and TC an honest node emits (in proposals, timeouts, TC broadcasts) is re-verified independently (distinct members, quorum stake, every signature valid for one (block, round) resp. (round, high-QC round)); no TC is sent twice to a peer.",
